@@ -16,6 +16,7 @@ mod u5d;
 mod u6;
 mod u6b;
 mod u8;
+mod u8b;
 mod u9;
 mod util;
 
@@ -61,6 +62,8 @@ fn main() {
     ("u6b", "replay") => u6b::replay(rest),
     ("u8", "find") => u8::find(rest),
     ("u8", "replay") => u8::replay(rest),
+    ("u8b", "find") => u8b::find(rest),
+    ("u8b", "replay") => u8b::replay(rest),
     ("u9", "find") => u9::find(rest),
     ("u9", "replay") => u9::replay(rest),
     _ => {
